@@ -209,9 +209,12 @@ def batch(plan: dict[str, Any], stage: int, dpc: int, it: int,
     h = _mix(plan['data_seed'], stage, dpc, it, micro)
     g = torch.Generator().manual_seed(h)
     bs = 2 + h % 5
-    x = torch.randn(bs, plan['hidden'], generator=g)
+    # GPT-NeoX activations are [sequence, batch, hidden]; 'seq' absent/None
+    # gives plain [batch, hidden]
+    lead = (plan['seq'], bs) if plan.get('seq') else (bs,)
+    x = torch.randn(*lead, plan['hidden'], generator=g)
     x = x * (1.0 + torch.arange(plan['hidden']) / plan['hidden'])
-    y = torch.randn(bs, plan['hidden'], generator=g)
+    y = torch.randn(*lead, plan['hidden'], generator=g)
     return x, y
 
 
@@ -730,6 +733,7 @@ def gen_neox_plan(rng: random.Random, tier: str, *, restarts: float,
         'plain_stages': [rng.randrange(pp)] if pp > 1
         and rng.random() < 0.3 else [],
         'bias_col': rng.random() < 0.6, 'bias_row': rng.random() < 0.6,
+        'seq': rng.choice([None, None, 1, 2, 3]),
         'hps': hps, 'acc': acc, 'hook': hook,
         'loss_gain': rng.choice([1.0, 3.0]),
         'kfac': {
